@@ -59,6 +59,9 @@ func c18Route(method, path string) route {
 	default:
 		return route{0, "EpNoRoute", ""}
 	}
+	if method == "HEAD" { // ServeMux: a GET pattern also matches HEAD
+		method = "GET"
+	}
 	rest := path[3:]
 	if rest == "/ping" {
 		return route{ver, "EpPing", ""}
